@@ -130,6 +130,24 @@ pub fn cases(tier: &str, shard: (usize, usize)) -> (Vec<Value>, usize) {
             }
         }
     }
+    // "Windows-style" long entry patch: trampoline block beyond +/-2 GiB (encoder level)
+    for &b in &[0x4000_0000u64, 0x5554_0000_0000, 0x7F00_0000_0000] {
+        for o in [0u64, 0x7FF, 0xFF4, 0xFFC] {
+            let a = b + o;
+            let mut ds: Vec<i128> = Vec::new();
+            for k in -3..=3i128 {
+                ds.push((1i128 << 31) + 5 + k);
+                ds.push(-(1i128 << 31) + 5 + k);
+            }
+            ds.extend([1i128 << 32, -(1i128 << 32), 1i128 << 40, -(1i128 << 40), (1i128 << 46) + 0x1000, 0x10_0000, -0x10_0000]);
+            for d in ds {
+                let j = a as i128 + d;
+                if j > 0x1_0000 && j < 0x7FFF_FFFF_0000 {
+                    emit(a, Some(j as u64), 0, "far-entry", "internal");
+                }
+            }
+        }
+    }
     (out, idx)
 }
 
@@ -138,6 +156,29 @@ thread_local! {
 }
 
 pub fn exec(c: &Value) -> Value {
+    if c["kind"] == "far-entry" {
+        #[cfg(feature = "priv_access")]
+        {
+            let (a, jit) = (c["a"].as_u64().unwrap(), c["tramp"].as_u64().unwrap());
+            let o = PAGES.with(|p| {
+                let mut p = p.borrow_mut();
+                if !p.is_mapped(a) || p.mapped.len() > 4 {
+                    p.release_all();
+                }
+                scen::run_x64_far_entry(&mut p, a, jit)
+            });
+            let mut tags = vec!["far-entry".to_string()];
+            if o.installed {
+                tags.push(if o.entry_len_long { "entry:long" } else { "entry:rel32" }.into());
+            }
+            if o.real_call {
+                tags.push("real-call".into());
+            }
+            return json!({"viols": o.viols.iter().map(|v| json!({"prop": v.prop, "key": v.key, "what": v.what})).collect::<Vec<_>>(), "tags": tags, "trace_class": "", "steps": 3});
+        }
+        #[cfg(not(feature = "priv_access"))]
+        return json!({"viols": [], "tags": ["reduced:no-priv-access"], "trace_class": "", "steps": 0});
+    }
     let case = X64Case {
         a: c["a"].as_u64().unwrap(),
         tramp: c["tramp"].as_u64(),
